@@ -35,12 +35,19 @@ var gluePairs = [][2]uint64{
 	// contain the digit e, or look like another base's prefix
 	{0, 0xb}, {0, 0xb1}, {0, 0xbe}, {0, 0xb0}, {0, 0xe}, {0, 0x1e}, {0, 0xe1}, {0, 16}, {0, 31}, {0, 8},
 	{^uint64(0), ^uint64(0) - 0xb1 + 1}, {^uint64(0), ^uint64(0) - 0xb + 1}, {0xb, 0}, {0xb100000000000000, 1},
+	// -2^64, -2^63, ±2^64±1, ±2^63±1, small negatives, decimal length changes (ind2-c02-a); the top bit of lo against hi
+	// (ind2-c02-b)
+	{1, 1}, {^uint64(0) - 1, ^uint64(0)}, {^uint64(0), ^uint64(0) - 1}, {^uint64(0), ^uint64(0) - 8}, {^uint64(0), ^uint64(0) - 9},
+	{^uint64(0), ^uint64(0) - 10}, {^uint64(0), ^uint64(0) - 99}, {0, 1<<63 + 1}, {0, 1<<63 - 2}, {^uint64(0), 1<<63 + 1},
+	{^uint64(0), 1<<63 - 2}, {^uint64(0) - 1, 0}, {2, 0}, {0, 10000000000000000000}, {^uint64(0), ^uint64(0) - 9999999999999999999},
+	{0x4b3b4ca85a86c47a, 0x098a224000000000}, {0x4b3b4ca85a86c47a, 0x098a223fffffffff}, {0xb4c4b357a5793b85, 0xf675ddc000000000},
+	{1<<63 - 1, ^uint64(0) - 1}, {1 << 63, 2}, {1 << 62, 0}, {0, 1 << 32}, {0, 1<<32 - 1}, {0, 1 << 53}, {0, 1<<53 + 1},
 }
 
 var fmtVerbs = []string{
 	"%d", "%v", "%s", "%x", "%X", "%o", "%O", "%b", "%#x", "%#o", "%#b", "%+d", "% d", "%45d", "%-45d|", "%045d", "%.50d", "%+.3x",
-	"%q", "%c", "%e", "%+v", "%#v", "%10.5s",
-}
+	"%+v", "%#v", "%10.5s", "%#X", "%+#x", "%-30x|", "%300d", "%0300b", "%#o", "%#O", "% x",
+} // the text printed for verbs Format does not support (%q %c %e ...) is not constrained and not compared
 
 type uWrap struct {
 	A num.Uint128            `json:"a" yaml:"a"`
@@ -66,7 +73,9 @@ func exact(hi, lo uint64, signed bool) *big.Int {
 	return b
 }
 
-func (glue) Run(line string) string {
+func (glue) Run(line string) string { return guarded(func() string { return glueRun(line) }) }
+
+func glueRun(line string) string {
 	f := strings.Fields(line)
 	if len(f) != 2 {
 		return "bad-op"
@@ -83,7 +92,8 @@ func (glue) Run(line string) string {
 	}
 	switch f[0] {
 	case "u":
-		v := num.Uint128FromComponents(hi, lo)
+		v := mkU(hi, lo)
+		var zero num.Uint128
 		want := exact(hi, lo, false)
 		dec := want.Text(10)
 		for _, verb := range fmtVerbs {
@@ -127,6 +137,7 @@ func (glue) Run(line string) string {
 			fail("Sscanf=%s,%v", u3, err)
 		}
 		scanBackChecks[num.Uint128](v, fail)
+		extraChecks(v, hi, lo, want, fail)
 		// json
 		j, err := json.Marshal(v)
 		if err != nil || string(j) != dec {
@@ -144,7 +155,7 @@ func (glue) Run(line string) string {
 		}
 		var w2 uWrap
 		if err = json.Unmarshal(j, &w2); err != nil || w2.A != v || w2.P == nil || *w2.P != v || len(w2.L) != 3 || w2.L[0] != v ||
-			!w2.L[1].IsZero() || w2.L[2] != v || w2.M["k"] != v {
+			w2.L[1] != zero || w2.L[2] != v || w2.M["k"] != v {
 			fail("json struct back=%+v,%v", w2, err)
 		}
 		mk, err := json.Marshal(map[num.Uint128]int{v: 1})
@@ -174,7 +185,7 @@ func (glue) Run(line string) string {
 		}
 		var w3 uWrap
 		if err = yaml.Unmarshal(y, &w3); err != nil || w3.A != v || w3.P == nil || *w3.P != v || len(w3.L) != 3 || w3.L[0] != v ||
-			!w3.L[1].IsZero() || w3.L[2] != v || w3.M["k"] != v {
+			w3.L[1] != zero || w3.L[2] != v || w3.M["k"] != v {
 			fail("yaml struct back=%+v,%v from %q", w3, err, y)
 		}
 		var u7 num.Uint128
@@ -182,7 +193,8 @@ func (glue) Run(line string) string {
 			fail("yaml plain=%s,%v", u7, err)
 		}
 	case "i":
-		v := num.Int128FromComponents(hi, lo)
+		v := mkI(hi, lo)
+		var zero num.Int128
 		want := exact(hi, lo, true)
 		dec := want.Text(10)
 		for _, verb := range fmtVerbs {
@@ -224,6 +236,7 @@ func (glue) Run(line string) string {
 			fail("Sscanf=%s,%v", u3, err)
 		}
 		scanBackChecks[num.Int128](v, fail)
+		extraChecks(v, hi, lo, want, fail)
 		j, err := json.Marshal(v)
 		if err != nil || string(j) != dec {
 			fail("json.Marshal=%q,%v", j, err)
@@ -240,7 +253,7 @@ func (glue) Run(line string) string {
 		}
 		var w2 iWrap
 		if err = json.Unmarshal(j, &w2); err != nil || w2.A != v || w2.P == nil || *w2.P != v || len(w2.L) != 3 || w2.L[0] != v ||
-			!w2.L[1].IsZero() || w2.L[2] != v || w2.M["k"] != v {
+			w2.L[1] != zero || w2.L[2] != v || w2.M["k"] != v {
 			fail("json struct back=%+v,%v", w2, err)
 		}
 		mk, err := json.Marshal(map[num.Int128]int{v: 1})
@@ -269,7 +282,7 @@ func (glue) Run(line string) string {
 		}
 		var w3 iWrap
 		if err = yaml.Unmarshal(y, &w3); err != nil || w3.A != v || w3.P == nil || *w3.P != v || len(w3.L) != 3 || w3.L[0] != v ||
-			!w3.L[1].IsZero() || w3.L[2] != v || w3.M["k"] != v {
+			w3.L[1] != zero || w3.L[2] != v || w3.M["k"] != v {
 			fail("yaml struct back=%+v,%v from %q", w3, err, y)
 		}
 		var u7 num.Int128
